@@ -93,6 +93,7 @@ func c12regen(g *Gen) {
 			if k := strings.Index(stale, "package "); k > 0 {
 				stale = stale[:k] + "package " + pkg.Name + "\n\n// stale\ntype ZZStale struct{ X *int }\n"
 			}
+			stale += strings.Repeat("// stale filler, longer than anything the tool writes now\n", 400)
 			os.WriteFile(outFile, []byte(stale), 0644)
 		}
 		run("third run (stale previous output)")
